@@ -30,6 +30,13 @@ OPS = [
     (r'\bSkipGroup::Debug\b', 'SkipGroup::Hash'), (r'\bSkipGroup::Hash\b', 'SkipGroup::EqHashOrd'), (r'\bSkipGroup::EqHashOrd\b', 'SkipGroup::Debug'),
     (r'\.iter\(\)\.skip\(1\)', '.iter()'), (r'\.rev\(\)', ''), (r'\+ 1\b', '+ 2'), (r'\.first\(\)', '.last()'), (r'\.last\(\)', '.first()'),
     (r'\bSome\(0\)', 'Some(1)'), (r'=> return Err\(', '=> return Ok(()); let _ = Err::<(), _>('),
+    # second operator set
+    (r'\bcontinue;', '{}'), (r'\bbreak;', '{}'), (r'\bSkip::None\b', 'Skip::All'), (r'\bSkip::All\b', 'Skip::None'),
+    (r'(?<![\w.])0(?![\w.])', '1'), (r'(?<![\w.])1(?![\w.])', '0'), (r'\.next\(\)', '.last()'), (r'\.filter\(', '.skip_while('),
+    (r'\bis_incomparable\(\)', 'is_incomparable() == false'), (r'\.is_ident\(', '.is_ident("") || !'), (r'\bunraw\(\)', 'clone()'),
+    (r'\.zip\(', '.zip(::core::iter::empty().chain('), (r'\bSimpleType::Struct\b', 'SimpleType::Tuple'), (r'\bSimpleType::Tuple\b', 'SimpleType::Struct'),
+    (r'\bRepresentation::U8\b', 'Representation::I8'), (r'\bDiscriminant::Unit\b', 'Discriminant::Data'), (r'\bDiscriminant::Data\b', 'Discriminant::Unit'),
+    (r'ref mut', 'ref'), (r'\.dedup_by\(', '.retain(|_| true); let _ = ('),
 ]
 
 
